@@ -149,6 +149,10 @@ func sumTags(cols []column, kinds []string) map[string]bool {
 			tags["const-column-ignored"] = true
 		case (k == "flat:Float" || k == "dict:Float") && nonNull > 0:
 			tags["non-integer-kind-ignored"] = true
+		case k == "other:Union" && unionHasNumber(col):
+			// the sequential runtime untags union values and adds the numeric ones once its
+			// accumulator has a numeric type (e.g. after plain integer values)
+			tags["union-values-ignored"] = true
 		case k == "flat:Int" || k == "flat:Uint" || k == "dict:Int" || k == "dict:Uint":
 			if nonNull > 0 {
 				summed = true
@@ -166,7 +170,7 @@ func sumTags(cols []column, kinds []string) map[string]bool {
 
 var cbPanicPriority = []string{"load-fails", "missing-field-panic", "named-type-panic", "non-string-panic"}
 var cbDiffPriority = []string{"dict-across-objects", "non-string-const-dropped", "null-type-key", "null-slots-miscounted"}
-var sumPriority = []string{"load-fails", "const-column-ignored", "non-integer-kind-ignored", "result-type-int64", "zero-instead-of-null"}
+var sumPriority = []string{"load-fails", "const-column-ignored", "non-integer-kind-ignored", "union-values-ignored", "result-type-int64", "zero-instead-of-null"}
 
 func pick(tags map[string]bool, prio []string) string {
 	for _, t := range prio {
@@ -584,4 +588,25 @@ func shrinkOCase(oc *ocase, fails func(*ocase) bool, budget int) *ocase {
 		}
 	}
 	return cur
+}
+
+// unionHasNumber: some non-null value of the union column holds a number.
+func unionHasNumber(col column) bool {
+	if col.T == nil || col.T.Kind != "union" {
+		return false
+	}
+	for _, v := range col.Vals {
+		if v == nil || v.Null || len(v.Items) != 2 || v.Items[1].Null {
+			continue
+		}
+		tag := int(zed.DecodeInt(v.Items[0].Prim))
+		if tag < 0 || tag >= len(col.T.Elems) {
+			continue
+		}
+		m := col.T.Elems[tag]
+		if m.Kind == "prim" && (isIntKind(m.ID) || isUintKind(m.ID) || (m.ID >= zed.IDFloat16 && m.ID <= zed.IDFloat64)) {
+			return true
+		}
+	}
+	return false
 }
